@@ -21,6 +21,9 @@ import (
 //	addrow      t.AddRow(<pending row Ref>)
 //	sep         AddSeparator()
 //	appendnew   t.AppendNewRow()
+//	readd       t.AddRow(<an already attached cell row Ref>) again: the row is listed twice (only generated where asked for)
+//	mutate      change the (mutable) item of cell Cap of row Ref behind the cell's back, then call Cell.Update()
+//	            (Items[0] carries the new S/G/E/N); a no-op if that cell's item cannot be mutated
 //	zerorow     t.AddRow(new(tabular.Row))            (a zero-value row: not a separator, holds no cells, refuses Add)
 //
 // Ref is taken modulo the number of candidate rows; an operation without a
@@ -89,7 +92,7 @@ type Model struct {
 	MaxEver    int     // historical maximum of header/row cell counts (of attached things)
 	Noops      int
 	// Facts for the non-trivial rules.
-	LateAdd, HdrAfterRows, ZeroCellRow, ZeroCellHdr, HasSep, Ragged, SepAdd bool
+	LateAdd, HdrAfterRows, ZeroCellRow, ZeroCellHdr, HasSep, Ragged, SepAdd, ReAdded, Mutated bool
 }
 
 // NCols is the column count by the statement: the largest number of cells in
@@ -196,6 +199,47 @@ func (m *Model) Step(t tabular.Table, op Op) {
 		m.All = append(m.All, r)
 		m.noteAttached(r)
 		m.ZeroCellRow = true
+	case "mutate":
+		if len(op.Items) == 0 {
+			m.Noops++
+			return
+		}
+		var cand []*MRow
+		for _, r := range m.All {
+			if len(r.Cells) > 0 {
+				cand = append(cand, r)
+			}
+		}
+		if len(cand) == 0 {
+			m.Noops++
+			return
+		}
+		r := cand[mod(op.Ref, len(cand))]
+		j := mod(op.Cap, len(r.Cells))
+		mc := &r.Cells[j]
+		if !Mutate(mc.Live, mc.It, op.Items[0]) {
+			m.Noops++
+			return
+		}
+		cells := r.Real.Cells()
+		(&cells[j]).Update()
+		mc.Text = TextForm(mc.It, mc.Live)
+		m.Mutated = true
+	case "readd":
+		var att []*MRow
+		for _, r := range m.Rows {
+			if !r.Sep && !r.NilCells {
+				att = append(att, r)
+			}
+		}
+		if len(att) == 0 {
+			m.Noops++
+			return
+		}
+		r := att[mod(op.Ref, len(att))]
+		t.AddRow(r.Real)
+		m.Rows = append(m.Rows, r)
+		m.ReAdded = true
 	case "zerorow":
 		r := &MRow{NilCells: true, Real: new(tabular.Row)}
 		t.AddRow(r.Real)
@@ -299,4 +343,23 @@ func (s Script) Shape() string {
 		}
 	}
 	return s.Creator + ":" + string(b)
+}
+
+// ScrambleRowsCopy takes the row list the table hands out and reverses,
+// truncates and nils it: it is documented as a copy, so nothing the table
+// does afterwards may depend on it.
+func ScrambleRowsCopy(t tabular.Table) {
+	rr := t.AllRows()
+	for i, j := 0, len(rr)-1; i < j; i, j = i+1, j-1 {
+		rr[i], rr[j] = rr[j], rr[i]
+	}
+	if len(rr) > 1 {
+		rr[0] = rr[len(rr)-1]
+		rr = rr[:len(rr)-1]
+	}
+	for i := range rr {
+		if i%2 == 1 {
+			rr[i] = nil
+		}
+	}
 }
